@@ -300,16 +300,16 @@ def describe(c):
 def key_of(c):
     f = c['fam']
     if f == 'pasv':
-        return 'wire:pasv:%s' % ('+'.join('c%d%s' % (p, m) for p, m in c['mut']) or 'valid')
+        return 'ftp-e3:pasv:%s' % ('+'.join('c%d%s' % (p, m) for p, m in c['mut']) or 'valid')
     if f == 'epsv':
         if '+' in c['port']:
-            return 'wire:epsv:port-above-65535'          # one input class: the announced port exceeds 16 bits
-        return 'wire:epsv:port=%s:delim=%s' % (c['port'], c['delim'].replace(' ', '_'))
+            return 'ftp-e3:epsv:port-above-65535'          # one input class: the announced port exceeds 16 bits
+        return 'ftp-e3:epsv:port=%s:delim=%s' % (c['port'], c['delim'].replace(' ', '_'))
     if f == 'list':
-        return 'wire:list:%s' % c['seed']
+        return 'ftp-e3:list:%s' % c['seed']
     if f == 'list-split':
-        return 'wire:list-split:%s' % c['seed']
-    return 'wire:ctrl:%s:%s' % (c['state'], c['text'])
+        return 'ftp-e3:list-split:%s' % c['seed']
+    return 'ftp-e3:ctrl:%s:%s' % (c['state'], c['text'])
 
 
 # ------------------------------------------------------------------ reference for address replies
@@ -473,7 +473,7 @@ def run(ctx):
     for v in vio:
         if seen[v.key] > 1:
             v.what += ' (+%d more cases with this key)' % (seen[v.key] - 1)
-    vio += [Violation('crash:' + k, 'squid crashed/asserted during case %s: %s' % (k, what), {'case': c}) for k, what, c in tot['crashes']]
+    vio += [Violation(k + ':crash', 'squid crashed/asserted during case %s: %s' % (k, what), {'case': c}) for k, what, c in tot['crashes']]
     samples = [{'case': describe(s['case']), 'outcome': s['outcome']} for s in tot['samples'][:8]]
     cov = {'evaluations': tot['evaluations'], 'distinct_nontrivial': tot['evaluations'] - oc.get('squid-crashed', 0), 'rule': RULE,
            'samples': samples, 'outcome_classes': oc, 'exhaustive': not tot['deadline_hit'] and tot['evaluations'] == len(cases),
@@ -496,5 +496,5 @@ def replay(ctx, data):
         w.stop()
     v = [Violation(key_of(c), r['violation'], data)] if r['violation'] else []
     if hp:
-        v.append(Violation('crash:' + key_of(c), '; '.join(hp)[:2000], data))
+        v.append(Violation(key_of(c) + ':crash', '; '.join(hp)[:2000], data))
     return Result(LEVEL, {}, v, ASSUME)
